@@ -79,7 +79,8 @@ CLAIMED = {
         "canonicalised by every back-end (generic, wl, morgan, nauty; wrapper hash and canonical_signature; NautyCanonicalizer directly; SynGraph equality); "
         "TLC verifies faithfulness through the recovered relabelling (LGraph!Relabel), determinism, soundness (equal signatures => IsIso) and, for the exact "
         "back-end, invariance (IsIso => equal signature and identical canonical graph; wrapper equality <=> IsIso). All graphs <=3 nodes exhaustively, 4 (5 "
-        "thorough) nodes, symmetric families (cycles, K23, K33, cube, C3+C4 traps) and random graphs <=9 nodes.",
+        "thorough) nodes, symmetric families (cycles, K23, K33, cube, C3+C4 traps) and random graphs <=9 nodes. The rule wrapper SynRule (nauty back-end) is judged the same way "
+        "(== / hash <=> IsIso of the reaction centres), on families that also contain a re-paired member (both sides isomorphic, the rule not).",
    ref="DESIGN.md §3 C08",
    technique="TLA+ theory (relabelling, isomorphism) + TLC-enumerated graphs replayed into the code + TLC judging recorded canonical forms/signatures"),
  "C01": dict(
@@ -103,7 +104,9 @@ CLAIMED = {
         "and random connected/disconnected graphs <=9 nodes: Automorphism.n_automorphisms/orbits and AutoEst.orbits are judged by TLC against LGraph!Autos "
         "(per-component product and orbits, estimate must coarsen the full-group orbits); deduplicate_matches_with_anchor on search results (with pattern "
         "orbits, anchors, host orbits, partial matches) must return an order-preserving sub-list. The clause about symmetry pruning during rule application "
-        "is decided with the rule-application machinery (C05) and reported there.",
+        "is decided with the rule-application machinery of C05 (judge C05Cases, claim C11), in the default and in the exact pruning mode; a lost reaction is "
+        "accepted as the recorded known finding only when the result equals what Prune.tla (the pruning algorithm as implemented) computes from the raw matches. "
+        "Every graph is also analysed after a rewired look-alike on the same node ids (class-level caches).",
    ref="DESIGN.md §3 C11",
    technique="TLA+ theory (automorphisms, orbits) + TLC-enumerated graphs replayed into the code + TLC judging recorded results"),
  "C18": dict(
@@ -126,14 +129,16 @@ CLAIMED = {
    text="For textbook and corpus reactions and their renumberings / re-rootings / fragment shuffles, the own template (centre and full ITS) is applied forward to "
         "the unmapped reactants and backward to the unmapped products under all/comp/bt in the mode paired with the reaction's hydrogen writing; TLC decides "
         "the preconditions from the reaction's ITS (balanced, centre hydrogens consistent, no spectator explicit hydrogen, changes inside the centre for centre "
-        "templates) and requires the reaction among the results; a failure is attributed to the known pruning finding only if every raw match regenerates it.",
+        "templates, the documented strict_cc_count guard of the comp strategy) and requires the reaction among the results; a failure is attributed to the known "
+        "pruning finding only if the raw-match replay regenerates it and the returned set equals Prune!ModelResult (the pruning as implemented).",
    ref="DESIGN.md §3 C04",
    technique="TLA+ preconditions and judgement by TLC over recorded SynReactor outputs; raw-match replay for diagnosis"),
  "C05": dict(
    text="Each (template, substrate) pair (textbook and corpus, own and foreign, centre/full, forward/backward) is written in several ways (template atom maps "
         "permuted and re-rooted, substrate SMILES re-rooted and fragment-shuffled, repeated call); for every writing the distinct reactions under all/comp/bt and the "
         "reactions obtained by applying the rule at every raw match are recorded; TLC checks equality of the sets across writings, comp within all, bt = comp when "
-        "non-empty, and the same for the raw sets. Differences that exist only in the pruned sets are the recorded known finding.",
+        "non-empty, and the same for the raw sets (as written, or after every bond is written single: Kekule placement of a de-aromatised ring is not a "
+        "different reaction). Differences that exist only in the pruned sets are the recorded known finding only if every pruned set equals Prune!ModelResult.",
    ref="DESIGN.md §3 C05",
    technique="TLC judging recorded result sets of metamorphic variants; raw-match replay separates the known pruning finding"),
  "C09": dict(
@@ -156,9 +161,15 @@ CLAIMED = {
    text="Batch.tla models the per-process result cache with an explicit allocator (addresses are freed and re-used); TLC proves ResultIsPure when the cache pins "
         "its keys and must find the stale-hit counterexample for a cache keyed by the bare address. Conformance: BatchReactor.fit on batches of 150 (thorough 400) "
         "entries repeating a few look-alike substrates, cache on/off, cache sizes 1-3, 1-8 worker processes, is compared per entry by TLC with SynReactor on "
-        "that entry alone; AAMValidator.validate_smiles and dicts_balance_check with 1 vs 4 jobs and SynCRN expansion serial vs parallel must agree.",
+        "that entry alone (as a set) and with the first configuration (as a list up to order, incl. rule-parallel configurations and a repeated rule); "
+        "AAMValidator.validate_smiles and dicts_balance_check (rows with their own fields) with 1 vs 4 jobs and SynCRN expansion serial vs parallel must agree; "
+        "batched versus one-shot clustering is judged by C13Cases. The expansion loop is a state machine of its own (Expansion.tla): MC_Expansion is model-checked "
+        "over every chemistry of a small universe, its behaviours are replayed into the real SynCRN with scripted chemistry, and recorded serial/parallel histories of "
+        "real chemistry are validated by ExpansionTrace (differences between schedules are violations, non-conformance to the spec is a SPEC-DEVIATION). "
+        "Apalache discharges an inductive invariant of the pinned cache for an unbounded number of operations.",
    ref="DESIGN.md §3 C14",
-   technique="TLA+ state machine of cache + allocator model-checked by TLC; TLC judging recorded batch runs against solo runs"),
+   technique="TLA+ state machines (cache + allocator; expansion loop) model-checked by TLC, inductive invariant by Apalache; TLC judging recorded batch runs, "
+             "schedules and expansion histories; TLC behaviours replayed into the real class"),
 }
 
 NOT_YET = "check not built yet (work in progress; planned with the same TLA+/TLC technique, see DESIGN.md §3)"
